@@ -235,11 +235,18 @@ func (p *Proof) Verify(public Public, hash *hash.Hash, pl *pool.Pool) bool {
 		return false
 	}
 
-	if big.Jacobi(p.W, n) != -1 {
+	// validate before use: nil or out of range values must be rejected here, since the
+	// responses are verified on worker goroutines, where a panic would crash the process.
+	if !arith.IsValidBigModN(n, p.W) {
 		return false
 	}
+	for i := range p.Responses {
+		if !arith.IsValidBigModN(n, p.Responses[i].X, p.Responses[i].Z) {
+			return false
+		}
+	}
 
-	if !arith.IsValidBigModN(n, p.W) {
+	if big.Jacobi(p.W, n) != -1 {
 		return false
 	}
 
